@@ -37,7 +37,7 @@ TEXT = {
     "C17": {
         "technique": "runtime monitor: reference-model (epoch grid) + trace checker over hook invocations of the real epochs keeper with scripted faulty subscribers; integrated part on a real app: state assertions around epoch blocks with an injected fault (developer vesting account drained so that x/mint's hook errors) and a gas-limit sweep over the real BeginBlocker",
         "level": "Part 1 (pure binary): real x/epochs keeper, MultiEpochHooks and ApplyFuncIfNoError driven over generated block-time sequences with 1-4 scripted subscribers (error, three panic kinds, out-of-gas, partial writes); timers, call trace and subscriber key spaces compared with the model after every block. Part 2 (appmon binary): the app's real hook chain (txfees, twap, superfluid, incentives, mint, protorev) across epoch blocks where x/mint's hook fails after minting: supply, mint account, minter, reduction epoch and community pool must be untouched, incentives (earlier) and protorev (later) must have run, the timer must tick once and stay on the grid; 24 gas limits per sweep below the needed gas must all end in a propagated out-of-gas panic.",
-        "note": "Trusted: the harness store and context (part 1); the drained account and the gas meter on the BeginBlocker context as fault levers (part 2; a real block's begin-block meter is infinite). Observed outside the statement: protorev's day hook errors on every epoch until a developer account is set, and the incentives hook aborts the whole distribution when the minimum-value conversion of one reward denom errors (1 unit of the min-value denom buying less than one unit of the reward denom).",
+        "note": "Trusted: the harness store and context (part 1); the drained account and the gas meter on the BeginBlocker context as fault levers (part 2; a real block's begin-block meter is infinite). Observed outside the statement: protorev's day hook errors on every epoch until a developer account is set (contained, as the statement requires).",
     },
     "C06": {
         "technique": "runtime monitor: reference-model (lock book) refinement check of every lockup query, module balance and owner conservation after every message on a real app",
